@@ -1430,7 +1430,8 @@ class World(masterloop.LoopWorld):
             return
         strong = self.last_cycle_caught_up and all(
             kind in ('group', 'group_delete', 'advance', 'c11_probe',
-                     'drain', 'snap', 'process', 'app_delete_quiet')
+                     'drain', 'snap', 'process', 'app_delete_quiet',
+                     'apps_blacklist')
             for kind in self.ops_since_cycle) and not self.master_wrote()
         if strong:
             self.probes['restart_probes_after_group_change'] = \
@@ -1942,7 +1943,8 @@ class Generator:
                         for k, w in OP_WEIGHTS]
         if config.get('m_probe_weight'):
             self.weights = [(k, config['m_probe_weight'] if k == 'm_probe'
-                             else w) for k, w in self.weights]
+                             else (4 if k == 'trait_gained_then_probe'
+                                   else w)) for k, w in self.weights]
 
     def next_op(self, world):
         op = self._next_op(world)
@@ -2217,6 +2219,67 @@ class Generator:
         pats = self.rng.sample(near, self.rng.randint(1, 3))
         self.follow.extend([{'op': 'drain'}, {'op': 'master_cycle'}])
         return {'op': 'apps_blacklist', 'patterns': pats}
+
+    def g_blackout_then_failover(self, world):
+        """An application with placed instances (members of an identity
+        group if there are any) is blacked out and the master fails over
+        before it has run a cycle: what is recorded is reloaded as it is."""
+        stored = world.stored_placement()
+        cands = sorted(a for a, recs in stored.items() if len(recs) == 1)
+        if not cands:
+            return None
+        grouped = [a for a in cands if (world._zk_obj(z.path.scheduled(a))
+                                        or {}).get('identity_group')]
+        name = self.rng.choice(grouped or cands)
+        self.follow.extend([{'op': 'c11_probe'}])
+        return {'op': 'apps_blacklist',
+                'patterns': [self.rng.choice([name.split('#')[0],
+                                              name.split('.')[0] + '.*'])]}
+
+    def g_trait_gained_then_probe(self, world):
+        """A loaded server comes back reporting one trait more (nothing
+        else changes); then an instance that requires exactly that trait is
+        submitted at rest (C02)."""
+        cfg = self.config
+        pool = cfg['traits'] + cfg.get('node_traits', [])
+        cands = []
+        for sname in self._servers(world):
+            data = world._zk_obj(z.path.server(sname)) or {}
+            missing = [t for t in pool if t not in (data.get('traits') or [])]
+            if data.get('parent') and missing and \
+                    world.zk.nodes.get(z.path.server_presence(sname)):
+                cands.append((sname, data, missing))
+        if not cands:
+            return None
+        sname, old, missing = self.rng.choice(cands)
+        gained = self.rng.choice(missing)
+        proid = self.rng.choice(cfg['proids'])
+        manifest = {'memory': '256M', 'cpu': '10%', 'disk': '256M',
+                    'affinity': '%s.job' % proid, 'priority': 1,
+                    'traits': [gained]}
+        limits = cfg['aff_limits'].get(manifest['affinity'])
+        if limits:
+            manifest['affinity_limits'] = limits
+        follow = [{'op': 'drain'}, {'op': 'master_cycle'}]
+        quiet = self.rng.random() < 0.5
+        if quiet:
+            # the node restarted: it rewrites its record itself and its
+            # presence goes and comes back
+            follow = [{'op': 'drain'},
+                      {'op': 'presence_up', 'name': sname}] + follow
+        follow.append({'op': 'm_probe', 'app_id': '%s.job' % proid,
+                       'manifest': manifest})
+        spec = {'op': 'srv_set', 'name': sname, 'parent': old['parent'],
+                'partition': old.get('partition') or '_default',
+                'memory': old.get('memory'), 'cpu': old.get('cpu'),
+                'disk': old.get('disk'),
+                'traits': list(old.get('traits') or []) + [gained],
+                'up_since': old.get('up_since')}
+        if quiet:
+            self.follow.extend([dict(spec, quiet=True)] + follow)
+            return {'op': 'presence_down', 'name': sname}
+        self.follow.extend(follow)
+        return spec
 
     def g_blackout_server(self, world):
         names = self._servers(world)
@@ -3306,7 +3369,8 @@ OP_WEIGHTS = [
     ('overlapping_blackouts', 3), ('frozen_node_restart', 3),
     ('blackout_near_miss', 3), ('reload_race', 3),
     ('identity_shrink_regrow', 3), ('drop_group_members', 0),
-    ('late_event', 3),
+    ('late_event', 3), ('blackout_then_failover', 3),
+    ('trait_gained_then_probe', 0),
 ]
 
 
@@ -3426,6 +3490,7 @@ def make_config(prop, tier, rng):
     cfg['child_order'] = rng.getrandbits(32) if rng.random() < 0.5 else None
     if prop == 'C02':
         cfg['m_probe_weight'] = 14
+        cfg['wmul']['trait_gained_then_probe'] = 1.0
     if prop != 'C10':
         # (C10 enumerates the crash points itself)
         cfg['p_cycle_crash'] = rng.choice([0.0, 0.0, 0.05, 0.12])
